@@ -284,15 +284,45 @@ func CheckC03(rr *RunResult, res *vprop.Result) (crossedWithQueue bool) {
 				continue
 			}
 			if T >= 0 {
-				// (a) "sequences not yet started are never started": started-set rule (sound for every schedule, exact
-				// for Concurrency 1 and whenever the other slots are held inside plugin calls) — DESIGN §5 C03.
+				// (a) "sequences not yet started are never started": started-set rule, sound for every schedule and
+				// independent of the order in which the engine launches sequences. A sequence X is started when the
+				// engine writes it Running (first write of the sequence); both of the engine's threshold checks precede
+				// that write. A sequence Y whose Failed state was durable before that moment had either been counted
+				// when X was admitted, or was still holding its concurrency slot (the failure is counted before the slot
+				// is released). At most C-1 other sequences hold a slot when X is admitted, and those seen inside a
+				// plugin call at that moment (H) have not failed yet. Hence #Y - (C-1-|H|) <= T. With C = 1 this is
+				// exactly "execution stops at the failure that exceeds the tolerance".
+				startW := make([]int, len(bs.Seqs))  // position of the write-begin marking the sequence Running
+				failedW := make([]int, len(bs.Seqs)) // position of the write-end storing the sequence Failed
 				for si := range bs.Seqs {
-					e := firstEnter[si]
+					startW[si], failedW[si] = -1, -1
+					stag := fmt.Sprintf("p%d/b%d/s%d", pi, bi, si)
+					for i, e := range rr.Events {
+						if e.W == nil || e.W.Tag != stag {
+							continue
+						}
+						if e.Kind == EvWriteBegin && e.W.State.Status == workflow.Running && startW[si] < 0 {
+							startW[si] = i
+						}
+						if e.Kind == EvWriteEnd && e.W.State.Status == workflow.Failed && failedW[si] < 0 {
+							failedW[si] = i
+						}
+					}
+				}
+				for si := range bs.Seqs {
+					e := startW[si]
 					if e < 0 {
 						continue
 					}
-					h, fNotH := 0, 0
-					for sj := 0; sj < si; sj++ {
+					h, failedBefore := 0, 0
+					for sj := range bs.Seqs {
+						if sj == si {
+							continue
+						}
+						if failedW[sj] >= 0 && failedW[sj] < e {
+							failedBefore++
+							continue
+						}
 						inCall := false
 						for _, r := range sc.SeqRefs(pi, bi, sj) {
 							for _, inv := range ix.Invs(r) {
@@ -303,17 +333,15 @@ func CheckC03(rr *RunResult, res *vprop.Result) (crossedWithQueue bool) {
 						}
 						if inCall {
 							h++
-						} else if seqFailedFinal(fp, bi, sj) && firstEnter[sj] >= 0 && firstEnter[sj] < e {
-							fNotH++
 						}
 					}
 					slack := C - 1 - h
 					if slack < 0 {
 						slack = 0
 					}
-					if fNotH-slack > T {
-						res.Fail("C03/started-after-threshold", "plan p%d block b%d (Concurrency %d, ToleratedFailures %d): sequence s%d started at log %d although %d earlier sequences had failed and only %d others could still have been in flight (%d seen inside a plugin call)\n%s",
-							pi, bi, C, T, si, e, fNotH, C-1, h, FormatEvents(rr.Events, 80))
+					if failedBefore-slack > T {
+						res.Fail("C03/started-after-threshold", "plan p%d block b%d (Concurrency %d, ToleratedFailures %d): sequence s%d was started (written Running at log %d) although %d sequences were already durably Failed and at most %d of them could still have been holding a slot (%d other sequences seen inside a plugin call)\n%s",
+							pi, bi, C, T, si, e, failedBefore, slack, h, FormatEvents(rr.Events, 80))
 						return
 					}
 				}
